@@ -98,6 +98,10 @@ def _lh_packet(bs, base_x, pats_x, base_y, pats_y):
     return struct.pack('<BBfHHHfHHH', 10, bs, base_x, *pats_x, base_y, *pats_y)
 
 
+def _lh_snapshot(d):
+    return (d.get('basestation'), tuple(repr(v) for v in d.get('x', ())), tuple(repr(v) for v in d.get('y', ())))
+
+
 def part_lh_angle(slot):
     """Every 16-bit pattern in one sensor slot of the angle-stream packet."""
     from cflib.crazyflie.localization import Localization
@@ -109,6 +113,7 @@ def part_lh_angle(slot):
     got_pk = []
     loc.receivedLocationPacket.add_callback(got_pk.append)
     bases = (0.0, 1.5, -1.5)
+    held = None
     for bi, base in enumerate(bases):
         b32 = struct.unpack('<f', struct.pack('<f', base))[0]
         for pat in range(65536):
@@ -136,6 +141,17 @@ def part_lh_angle(slot):
                             % len(got_pk), {'part': 'lh', 'slot': slot, 'pattern': pat, 'base': base})
                 continue
             d = got_pk[0].data
+            # an application may keep decoded packets: the one decoded before this one must still say what it said
+            if held is not None:
+                hp, hsnap, hwhat = held
+                now_ = _lh_snapshot(hp.data)
+                if now_ != hsnap:
+                    p.violation('lh_angle:earlier_packet_changed', 'the packet decoded for %s changed from %r to %r when the '
+                                'next packet (slot %d pattern 0x%04x) was decoded' % (hwhat, hsnap, now_, slot, pat),
+                                {'part': 'lh', 'slot': slot, 'pattern': pat, 'base': base})
+                    held = None
+            if pat % 257 == 0:
+                held = (got_pk[0], _lh_snapshot(d), 'slot %d pattern 0x%04x' % (slot, pat))
             exp_x = [b32] + [b32 - float(ref[q]) for q in px]
             exp_y = [-b32] + [-b32 - float(ref[q]) for q in py]
             ok = d['basestation'] == bs and len(d['x']) == 4 and len(d['y']) == 4
